@@ -64,7 +64,12 @@ Definition seq_stop (crash : bool) (q : seqst) : Z :=
   if crash then q_disk q else if Z.eqb (q_disk q) (q_leased q) then q_next q else q_disk q.
 
 (** ** Store + dataset manager *)
-Record dsrec := { r_id : Z; r_pub : list Z }.
+(** a dataset record: internal id, public namespaces, kind (0 plain, 1 proxy, 2 virtual) and the kind's configuration
+    (proxy: ProxyConfig, here its timeoutSeconds; virtual: VirtualDatasetConfig, here the number in its transform) *)
+Record dsrec := { r_id : Z; r_pub : list Z; r_kind : Z; r_cfg : Z }.
+(** CreateDatasetConfig *)
+Record dscfg := { g_pub : list Z; g_kind : Z; g_cfg : Z }.
+Definition plain_cfg : dscfg := {| g_pub := []; g_kind := 0; g_cfg := 0 |}.
 Record fsst := { fs_id : Z; fs_seen : list uri }.
 
 Record dmstate := {
@@ -92,6 +97,8 @@ Definition u_pred : Z := 800.
 Definition u_meta (n : Z) : Z := 900 + n.
 Definition u_type : Z := 990.
 Definition u_class : Z := 991.
+Definition u_proxy_class : Z := 992.
+Definition u_virtual_class : Z := 993.
 Definition sys_ns : list Z := [9000; 9001; 9002].
 Definition core_name : Z := -1.
 
@@ -186,7 +193,7 @@ Definition unseen_deletes (s : dmstate) (id : Z) (seen : list uri) : list ent :=
 Inductive res := ROk | RErr | RConflict | RGone | RNoJob | RFailed.
 
 Inductive dmop :=
-| DCreate (n : Z) (pub : list Z)
+| DCreate (n : Z) (pub : dscfg)
 | DDelete (n : Z)
 | DRename (n m : Z)
 | DPubns (n : Z) (pub : list Z)
@@ -199,12 +206,12 @@ Definition set_reg (n : Z) (r : dsrec) (s : dmstate) : dmstate :=
      d_ids := d_ids s; d_data := d_data s |}.
 
 (** CreateDataset *)
-Definition dm_create (n : Z) (pub : list Z) (s : dmstate) : dmstate :=
+Definition dm_create (n : Z) (pub : dscfg) (s : dmstate) : dmstate :=
   match assoc n (m_reg s) with
   | Some _ => s
   | None =>
     let id := m_next s in
-    let r := {| r_id := id; r_pub := pub |} in
+    let r := {| r_id := id; r_pub := g_pub pub; r_kind := g_kind pub; r_cfg := g_cfg pub |} in
     (* nextDatasetID++ and storeValue; the record; the maps *)
     let s1 := {| m_reg := set_assoc n r (m_reg s); m_del := m_del s; m_next := id + 1; m_ns := m_ns s; m_fs := m_fs s;
                  m_seq := m_seq s;
@@ -212,7 +219,9 @@ Definition dm_create (n : Z) (pub : list Z) (s : dmstate) : dmstate :=
                  d_fs := d_fs s; d_ids := d_ids s; d_data := d_data s |} in
     (* NewDatasetEntity asserts the three system namespaces; the meta entity is stored in core.Dataset *)
     let s2 := fold_left (fun s e => assert_ns e s) sys_ns s1 in
-    fold_left (fun s u => assert_uri u s) [u_meta n; u_type; u_class] s2
+    fold_left (fun s u => assert_uri u s)
+              [u_meta n; u_type; if Z.eqb (g_kind pub) 1 then u_proxy_class
+                                 else if Z.eqb (g_kind pub) 2 then u_virtual_class else u_class] s2
   end.
 
 (** DeleteDataset *)
@@ -250,7 +259,7 @@ Definition dm_rename (n m : Z) (s : dmstate) : dmstate * res :=
 Definition dm_pubns (n : Z) (pub : list Z) (s : dmstate) : dmstate * res :=
   match assoc n (m_reg s) with
   | None => (s, RErr)
-  | Some r => (set_reg n {| r_id := r_id r; r_pub := pub |} s, ROk)
+  | Some r => (set_reg n {| r_id := r_id r; r_pub := pub; r_kind := r_kind r; r_cfg := r_cfg r |} s, ROk)
   end.
 
 (** datasetHandler.processEntities *)
@@ -259,6 +268,8 @@ Definition dm_post (fl : rflags) (n : Z) (start : bool) (fsid : Z) (fin : bool) 
   match assoc n (m_reg s) with
   | None => (s, RErr)
   | Some r =>
+    if negb (Z.eqb (r_kind r) 0) then (s, RErr)   (* proxy: forwarded to the (unreachable) remote; virtual: 501 *)
+    else
     let id := r_id r in
     let chk :=
       if start then Some (set_fs (f_fs fl) (set_assoc id {| fs_id := fsid; fs_seen := [] |} (m_fs s)) s)
@@ -303,11 +314,11 @@ Definition dm_reopen (fl : rflags) (crash : bool) (s : dmstate) : dmstate :=
                m_seq := seq_open (seq_stop crash (m_seq s));
                d_reg := d_reg s; d_del := d_del s; d_next := d_next s; d_ns := d_ns s; d_fs := d_fs s;
                d_ids := d_ids s; d_data := d_data s |} in
-  dm_create core_name [] s1.
+  dm_create core_name plain_cfg s1.
 
 (** an empty directory, opened *)
 Definition dm_init : dmstate :=
-  dm_create core_name []
+  dm_create core_name plain_cfg
     {| m_reg := []; m_del := []; m_next := 1; m_ns := []; m_fs := []; m_seq := seq_open 0;
        d_reg := []; d_del := None; d_next := None; d_ns := None; d_fs := []; d_ids := []; d_data := store0 |}.
 
@@ -395,6 +406,14 @@ Definition with_job (h : hub) (j : jobstate) : hub := {| h_dm := h_dm h; h_job :
 (** one run of an incremental DatasetSource -> DatasetSink job (batch size above the number of changes):
     read the changes of the source since the stored token; write them to the sink; store the new token;
     read the (empty) next page; store the token again; record the result *)
+(** a dataset a job can read from / write to locally: registered and not a proxy (a proxy source or sink goes to the
+    remote hub, which the driver's environment does not have: the run fails) *)
+Definition usable (dm : dmstate) (n : Z) : option dsrec :=
+  match assoc n (m_reg dm) with
+  | Some r => if Z.eqb (r_kind r) 1 then None else Some r
+  | None => None
+  end.
+
 Definition job_run (fl : rflags) (j : Z) (h : hub) : hub * res :=
   let js := h_job h in
   match assoc j (d_jcfg js) with
@@ -407,7 +426,7 @@ Definition job_run (fl : rflags) (j : Z) (h : hub) : hub * res :=
                       d_jtok := match tok with Some t => set_assoc j t (d_jtok js) | None => d_jtok js end;
                       d_jhist := set_assoc j (failed, n) (d_jhist js) |};
           h_sec := h_sec h; h_prov := h_prov h |}, if failed then RFailed else ROk) in
-    match assoc (j_src c) (m_reg dm) with
+    match usable dm (j_src c) with
     | None => finish dm None true 0
     | Some rs =>
       let since := match assoc j (d_jtok js) with Some t => t | None => 0 end in
@@ -416,7 +435,7 @@ Definition job_run (fl : rflags) (j : Z) (h : hub) : hub * res :=
       | [] => finish dm (Some next) false 0
       | _ =>
         let n := Z.of_nat (List.length out) in
-        match assoc (j_sink c) (m_reg dm) with
+        match usable dm (j_sink c) with
         | None => finish dm None true n
         | Some rk =>
           let es := map (fun e => {| e_id := en_id e; e_c := en_c e |}) out in
@@ -512,7 +531,7 @@ Definition obs_feed (s : dmstate) (id : Z) : list (list (list Z)) :=
 Definition obs (clients : list string) (h : hub) : snap :=
   let s := h_dm h in
   let js := h_job h in
-  [ map (fun p : Z * dsrec => fst p :: r_id (snd p) :: r_pub (snd p)) (m_reg s);
+  [ map (fun p : Z * dsrec => fst p :: r_id (snd p) :: r_kind (snd p) :: r_cfg (snd p) :: r_pub (snd p)) (m_reg s);
     [[m_next s]];
     [m_del s];
     [m_ns s];
